@@ -57,3 +57,20 @@ prop("C04",
      trusted_base=["vlapi/mqttp codec (shared by broker and harness client)"],
      assumptions=["topic alias / retain-not-supported branches of onPublish are exercised by C14 / not modelled here", "ACL verdict is an oracle (boolean per packet)"],
 )
+
+prop("C14",
+     coq=["model/Alias.v", "proofs/AliasProofs.v", "chk/C14chk.v", "props/C14.v", "refute/C14.v"],
+     n={"quick": 400, "thorough": 8000, "search": 1500},
+     shrink_fields=["topics", "pkts"],
+     rule="even cases (outbound): subscriber v5 (15%: v3.1.1) announcing Topic Alias Maximum in {0,1,2,5,65535}, 2-21 publishes over 1-8 distinct topics with recurrences; "
+          "observable per received PUBLISH: (topic present?, alias property). odd cases (inbound): server maximum in {0,2,5}, v5 publisher sending 2-13 packets "
+          "(plain / binding / alias-only; 35% of sequences contain alias 0, alias > maximum, unbound alias or empty topic without alias), 10% unauthorised topics; "
+          "observable: topics routed to a '#' watcher in order, termination and DISCONNECT reason. non-trivial = outbound with max>0 or any inbound; distinct by case JSON.",
+     level_text="Theorems (coq/props/C14.v): for every Topic Alias Maximum and every sequence of topics, every packet produced by the model of writer.setTopicAlias resolves, under the MQTT 5 "
+                "receiver table, to the published topic, uses aliases only in 1..max and none when max = 0 (invariant: sender map is contained in the receiver table); for every inbound history "
+                "an alias-only PUBLISH is routed to the topic LAST bound to that alias on the connection, and alias 0 / above the maximum / unbound terminates. Tied to connection/writer.go and "
+                "connection/connection.go by differential runs in both directions; the receiver-table oracle is also applied directly to the observed packets.",
+     level_note="Trusted: Coq kernel + vm_compute; hand translation of setTopicAlias and of the alias part of onPublish; vlapi codec (rejects alias 0 and an empty topic without alias at decode time).",
+     trusted_base=["vlapi/mqttp codec"],
+     assumptions=["ACL verdict per packet is an oracle", "the DISCONNECT reason for an invalid alias may be 0x94, 0x81 or 0x82 (the property only requires termination)"],
+)
